@@ -164,6 +164,31 @@ theorem C02_limited_loop_stalled_handler_blocks_others :
       (fun s => (step Skeleton.current s (.reqDeliver .B 0)).isSome) = some true := by
   decide
 
+/-- the source with something in the WRITE wrapper that can wait (a window / semaphore on the requests in flight of
+    one side, "back-pressure"): modelled as the strictest such limit, one unanswered request per endpoint -/
+def skWindow : Skeleton := { Skeleton.current with ioWrappersNonBlocking := false }
+
+/-- With a caller-side window the alternating chain deadlocks one level later: A's request is unanswered, B's
+    handler's nested request is unanswered, and the request A's handler needs to write next — the one whose result
+    everything waits for — is held back by A's own window.  Nothing is enabled any more. -/
+theorem C02_needs_nonblocking_wrappers :
+    (run skWindow init (deadlockRun.take 9)).map
+      (fun s => decide ((s.handlers .B 0).pc = .waitingNested 0 ∧ (s.handlers .A 0).pc = .waitingNested 1) &&
+                (step skWindow s (.callWrite .A 1)).isNone && stuck skWindow s) = some true ∧
+    (run Skeleton.current init (deadlockRun.take 9)).map
+      (fun s => (step Skeleton.current s (.callWrite .A 1)).isSome) = some true := by
+  decide
+
+/-- …and a single stalled handler keeps an INDEPENDENT call of the same side from even being written. -/
+theorem C02_window_stalled_handler_blocks_others :
+    (run skWindow init [.callStart .A 1 1, .callWrite .A 0, .reqDeliver .B 0, .handlerEnter .B 0, .handlerStall .B 0,
+                        .callStart .A 2 2]).map
+      (fun s => (step skWindow s (.callWrite .A 1)).isNone) = some true ∧
+    (run Skeleton.current init [.callStart .A 1 1, .callWrite .A 0, .reqDeliver .B 0, .handlerEnter .B 0, .handlerStall .B 0,
+                        .callStart .A 2 2]).map
+      (fun s => (step Skeleton.current s (.callWrite .A 1)).isSome) = some true := by
+  decide
+
 /-- the source with `go` removed from `go responseResolver.Publish(…)` -/
 def skSyncPublish : Skeleton := { Skeleton.current with respPublishAsync := false }
 
@@ -210,3 +235,5 @@ end Panrpc.Sys
 #print axioms Panrpc.Sys.C02_no_lock_across_closure
 #print axioms Panrpc.Sys.C02_needs_nonblocking_loop
 #print axioms Panrpc.Sys.C02_limited_loop_stalled_handler_blocks_others
+#print axioms Panrpc.Sys.C02_needs_nonblocking_wrappers
+#print axioms Panrpc.Sys.C02_window_stalled_handler_blocks_others
